@@ -159,6 +159,19 @@ static Scn reserve() {      // queue_node used directly: put / try_reserve + rel
         if (id == 0) { G->wait_for_all(); int v, cnt = 0; while (Q[0]->try_get(v)) ++cnt; TR.emit("{\"e\":\"Drained\",\"n\":1,\"cnt\":%d}", cnt); TR.emit("{\"e\":\"WaitRet\",\"live\":0,\"lossless\":0}"); release_helpers(); } else help(id);
     }, nullptr};
 }
+static Scn reserve2() {     // a queue_node with an ACCEPTING push successor while a user thread reserves and releases its head: the items that queued up behind a reservation
+    return {3, [](int id) {   // (a forwarding attempt during the reservation is refused) must flow again once the reservation is released - nothing may stay behind at wait_for_all
+        if (id == 0) { G = new graph; Q[0] = new queue_node<int>(*G);
+            reg(3, new function_node<int, int>(*G, serial, [](int m) { __atomic_add_fetch(&g_live, 1, __ATOMIC_SEQ_CST); TR.emit("{\"e\":\"BB\",\"n\":3,\"m\":%d}", m); cosched::yield_point(); TR.emit("{\"e\":\"BE\",\"n\":3,\"m\":%d}", m); __atomic_sub_fetch(&g_live, 1, __ATOMIC_SEQ_CST); return m; }));
+            node(1, "queue"); node(3, "fn", 1); make_edge(*Q[0], *RX[3]); edge(1, 3); publish(); }
+        await_graph();
+        for (int k = 0; k < 3; k++) { int m = 1 + id * 3 + k; msg(m); put(*Q[0], 1, m, m);
+            int v = 0;
+            if (id == 1) { bool ok = Q[0]->try_reserve(v); TR.emit("{\"e\":\"Rsv\",\"n\":1,\"m\":%d,\"ok\":%d}", ok ? v : 0, ok ? 1 : 0);
+                if (ok) { for (int i = 0; i < 3; i++) cosched::yield_point(); TR.emit("{\"e\":\"Rel\",\"n\":1,\"m\":%d}", v); Q[0]->try_release(); } } }
+        barrier(); if (id == 0) { waitret(*G, 1); release_helpers(); } else help(id);
+    }, nullptr};
+}
 static Scn owr(bool once) { // overwrite / write_once: one producer, a successor attached from the start and one attached concurrently by another thread
     return {2, [once](int id) {
         auto sink = [](int sc) { return [sc](int v) { TR.emit("{\"e\":\"Dlv\",\"sc\":%d,\"v\":%d}", sc, v); return v; }; };
@@ -276,7 +289,7 @@ static Scn make(const std::string& s) {
     if (s == "limitD2") return limitD(2, false); if (s == "limitD3") return limitD(3, false); if (s == "limitD2s") return limitD(2, true);
     if (s == "limitL1") return limitL(1); if (s == "limitL2") return limitL(2);
     if (s == "twolim") return twolim();
-    if (s == "prio") return prio(); if (s == "reserve") return reserve(); if (s == "ow") return owr(false); if (s == "wo") return owr(true); if (s == "split") return route(false); if (s == "indexer") return route(true);
+    if (s == "prio") return prio(); if (s == "reserve") return reserve(); if (s == "reserve2") return reserve2(); if (s == "ow") return owr(false); if (s == "wo") return owr(true); if (s == "split") return route(false); if (s == "indexer") return route(true);
     if (s == "input") return inputn(); if (s == "async") return asyncn(); if (s == "limitc1") return limitc(1); if (s == "limitc2") return limitc(2);
     if (s == "chain0") return chain(0); if (s == "chain1") return chain(1); if (s == "chainR") return chain(2); if (s == "fan") return fan(); if (s == "fifo") return fifo();
     if (s.rfind("seq", 0) == 0) return seqr((unsigned)atoi(s.c_str() + 3)); if (s == "limit1") return limit(1); if (s == "limit2") return limit(2);
